@@ -19,6 +19,21 @@ package p9p
 //@ loop 1 invariant forall(j, 0, $done, okName(args[j]))
 //@ loop 1 invariant forall(j, 0, n, args[j] == "..") && forall(j, n, $done, args[j] != "..")
 
+//@ pure plain(s string) bool = okName(s) && s != ".."
+
+//@ func NormalizePath
+//@ property C16 C20
+//@ ensures args_untouched: forall(j, 0, len(args), args[j] == old(args[j]))
+//@ ensures err: result1 == -1 <==> exists(j, 0, len(args), sep(args[j]))
+//@ ensures shape: result1 >= 0 ==> result1 <= len(result0) && len(result0) <= len(args) && forall(j, 0, result1, result0[j] == "..") && forall(j, result1, len(result0), plain(result0[j]))
+//@ ensures range: result1 >= -1
+//@ ensures fixpoint: forall L int :: 0 <= L && L <= len(args) && forall(j, 0, L, old(args[j]) == "..") && forall(j, L, len(args), plain(old(args[j]))) ==> result1 == L && len(result0) == len(args) && forall(j, 0, len(args), result0[j] == old(args[j]))
+//@ loop 1 invariant 0 <= lo && lo <= cursor && cursor <= $done && $done <= len(args) && len(ans) == len(args) && off(ans) == 0 && fresh(base(ans))
+//@ loop 1 invariant forall(j, 0, len(args), args[j] == old(args[j]))
+//@ loop 1 invariant forall(j, 0, $done, !sep(args[j]))
+//@ loop 1 invariant forall(j, 0, lo, ans[j] == "..") && forall(j, lo, cursor, plain(ans[j]))
+//@ loop 1 invariant forall L int :: 0 <= L && L <= len(args) && forall(j, 0, L, old(args[j]) == "..") && forall(j, L, len(args), plain(old(args[j]))) ==> cursor == $done && lo == min($done, L) && forall(j, 0, $done, ans[j] == old(args[j]))
+
 // ---------------------------------------------------------------- transport.go (C05)
 
 //@ func allocateTag
